@@ -17,7 +17,9 @@
    FINDING (DESIGN.md Appendix C #1): in undetected mode the storage probe answers `notenough` as soon as fewer than
    MinStorage tokens remain and the iterator stops - a serial message that starts within the last MinStorage-1 tokens of the
    input is never found if nothing was recognised before (shortest exhibit: the 2-token stream <<R,0>>). Named deviation
-   KFc; FixShortSerial = TRUE models the proposed repair (undetected + storage `notenough` -> still try the serial probe). *)
+   KFc; FixShortSerial = TRUE models the repair (fix: e31fecc + follow-up: undetected + storage `notenough` + fewer than
+   MinStorage tokens left -> still try the serial probe; with more data left a `notenough` stops the iterator in every mode,
+   which keeps the parse of a suffix independent of preceding messages - C04). *)
 EXTENDS Integers, Sequences, FiniteSets, TLC, Json
 
 CONSTANTS MaxL,            \* payload classes 0..MaxL (tokens)
@@ -89,7 +91,7 @@ Step == /\ ~done
            ELSE LET r == ParseSto(Rest) IN
                 IF r.k = "ok" THEN Yield(r.n, "storage")
                 ELSE IF r.k = "inv" THEN (IF mode = "storage" THEN Skip1 ELSE TrySerial)
-                ELSE IF FixShortSerial /\ mode = "undet" THEN TrySerial
+                ELSE IF FixShortSerial /\ mode = "undet" /\ Len(Rest) < MinStorage THEN TrySerial
                 ELSE Stop
         /\ UNCHANGED <<framing, segs, start>>
 Next == Step
